@@ -155,6 +155,9 @@ type NodeBoard struct {
 	Limit int
 	// FailSend, if set, is returned by Send before anything is appended.
 	FailSend error
+	// FailSendIf, if set, is asked about every Send call (the board refusing a particular message, an
+	// outage that begins in the middle of a result); a non-nil error is returned, nothing is appended.
+	FailSendIf func(msgs []storage.Message) error
 	OnEffect func(op string, n int)
 	// OnRead, if set, sees every GetMessages result.
 	OnRead func(offset uint64, msgs []storage.Message)
@@ -170,12 +173,18 @@ func (nb *NodeBoard) Send(msgs ...storage.Message) error {
 	nb.mu.Lock()
 	g := nb.gate
 	fail := nb.FailSend
+	failIf := nb.FailSendIf
 	nb.mu.Unlock()
 	if g != nil {
 		g("send", strconv.Itoa(len(msgs)), nil)
 	}
 	if fail != nil {
 		return fail
+	}
+	if failIf != nil {
+		if err := failIf(msgs); err != nil {
+			return err
+		}
 	}
 	err := nb.Inner.Send(msgs...)
 	nb.mu.Lock()
